@@ -126,6 +126,25 @@ Definition atok_str (t: atok) : string := match t with AId x => x | ALit (LStr x
 Definition diff_enum_name (exposed: option (option atok)) (name: string) : string :=
   match exposed with Some (Some n) => atok_str n | Some None => name ++ "StructDiffEnum" | None => "__" ++ name ++ "StructDiffEnum" end.
 
+(* the words of a printed where-clause item (`split` on everything that is not alphanumeric or `_`): identifiers at any depth, numbers; a raw
+   identifier `r#x` gives `r` and `x` *)
+Fixpoint tt_words1 (t: tt) : list string :=
+  match t with
+  | TId s => [s]
+  | TG _ inner => (fix go (l: list tt) : list string := match l with [] => [] | x :: r => tt_words1 x ++ go r end) inner
+  | _ => []
+  end.
+Definition tt_words (l: list tt) : list string := flat_map tt_words1 l.
+Definition gname (g: generic) : option string := match gkey g with [TId n] => Some n | _ => None end.
+Definition names_of_gens (l: list generic) : list string := flat_map (fun g => match gname g with Some n => [n] | None => [] end) l.
+Definition mem_str (x: string) (l: list string) : bool := existsb (String.eqb x) l.
+(* where-clause items over something other than a bare parameter that mention no parameter the diff enums leave out (repair of D23) *)
+Definition used_where_items (gens used: list generic) : list (list tt) :=
+  let declared := names_of_gens (no_where gens) in
+  let usedn := names_of_gens used in
+  filter (fun item => forallb (fun w => negb (mem_str w declared) || mem_str w usedn) (tt_words item))
+         (map (fun x => full_with_const x [] [] true) (filter is_where gens)).
+
 (* ---- derive_struct_diff_struct ---- *)
 Definition has_setter (all: bool) (f: field) : bool :=
   match attrs_setter (f_attrs f) with (local, skip_setter, _) => negb skip_setter && (all || local) end.
@@ -145,7 +164,7 @@ Definition struct_headers (c: hcfg) (setters_feature: bool) (s: strukt) : list (
       [TId "pub"; TId "enum"; TId (ename ++ "Ref")] ++ ref_def ++ TId "where" ::
       sep_comma (map (fun x => full_with_const x (REF_BOUNDS c) [lt_target] true) (filter (fun x => has_where_bounds x true true) (no_where_const used)) ++ [self_outlives]);
     TId "impl" :: ref_def ++ [TId "Into"; TP PLt; TId ename] ++ owned_impl ++ [TP PGt; TId "for"; TId (ename ++ "Ref")] ++ ref_impl ++ TId "where" ::
-      sep_comma (map (fun x => full_with_const x (BOUNDS c) [lt_target] true) (filter (fun x => has_where_bounds x true true) (no_where_const used)));
+      sep_comma (map (fun x => full_with_const x (BOUNDS c) [lt_target] true) (filter (fun x => has_where_bounds x true true) (no_where_const used)) ++ used_where_items gens used);
     TId "impl" :: angle (map ident_with_const (no_where gens)) ++ [TId "StructDiff"; TId "for"; TId sname] ++ angle (map ident_only (no_where gens)) ++ TId "where" ::
       sep_comma (map (fun x => full_with_const x (BOUNDS c) [] true) (filter (fun x => has_where_bounds x false true) (no_where_const gens)) ++
                  map (fun x => full_with_const x [] [] true) (filter is_where gens));
